@@ -251,19 +251,9 @@ func (d *Decoder) readObjectDef() (interface{}, error) {
 	//add to slice
 	d.clsDefList = append(d.clsDefList, clsD)
 
-	tag, err := d.readTag()
-	if err != nil {
-		return nil, newCodecError("readTag", "unexpected end of input", err)
-	}
-
-	if objectLenTag(tag) {
-		return d.ReadLenTagObject(tag)
-	}
-
-	if tag == _objectTag {
-		return d.readTagObject()
-	}
-	return nil, newCodecError("readObjectDef", "unknown tag after class def: 0x%x", tag)
+	// value ::= class-def value : the definition may be followed by any value (another
+	// definition, an instance of an earlier class, a list, ...), not only by its own instance
+	return d.ReadData()
 }
 
 // var readObjectIndex = 0
